@@ -1,5 +1,4 @@
-import PprofVerif.Lemmas.GraphKept
-import PprofVerif.Model.Trim
+import PprofVerif.Lemmas.TrimTotal
 /-!
 # C05 — trimming hides entries but never changes the numbers of those shown
 
@@ -8,7 +7,7 @@ Property theorems only.  `newGraph K ss` is the model of `graph.New` with `Optio
 statements are for every kept predicate `K`, every sample list, every key type.
 -/
 namespace PV.Props.C05
-open PV PV.GSpec PV.Graph
+open PV PV.GSpec PV.Graph PV.Trim
 
 variable {κ : Type} [DecidableEq κ]
 
@@ -43,6 +42,52 @@ theorem rebuild_residual_edge_spec (K : κ → Bool) (ss : List (GSample κ)) (a
     (newGraph K ss).residual a b = edgeResidualSpecK K ss a b ∧
     (newGraph K ss).hasEdge a b = edgeExistsK K ss a b :=
   ⟨newGraph_weight K ss a b, newGraph_residual K ss a b, newGraph_hasEdge K ss a b⟩
+
+/-- every listed row of the rebuilt graph belongs to a kept entry and carries that entry's untrimmed
+(specification) flat and cum — the table a report prints from. -/
+theorem rebuild_listed_rows_spec (K : κ → Bool) (ss : List (GSample κ)) (n : κ) (a : NodeAcc)
+    (h : (n, a) ∈ (newGraph K ss).shownNodes) :
+    K n = true ∧ a.flat = flatSpec ss n ∧ a.cum = cumSpec ss n :=
+  shownNodes_spec K ss n a h
+
+/-- the legend's "accounting for" figure (`graphTotal`) is the sum of the flat values shown, each
+being the entry's untrimmed flat. -/
+theorem accounting_for_eq_sum_shown (K : κ → Bool) (ss : List (GSample κ)) :
+    graphTotal (newGraph K ss) =
+      ((newGraph K ss).shownNodes.map (fun p => (flatSpec ss p.1).value)).sum :=
+  graphTotal_eq K ss
+
+/-- text reports, step 1: the node cutoff removes exactly the entries whose |cum| is below
+`cutoff = |trunc(Σ flat · nodefraction)|` (nothing when the cutoff is 0), keeping the order. -/
+theorem cutoff_removes_exactly (o : TrimOpts) (es : List Entry) (e : Entry) :
+    (e ∈ afterCutoff o es ↔
+      e ∈ es ∧ (0 < cutoffOf ((es.map (·.flat)).sum) o.fracNum o.fracDen →
+                cutoffOf ((es.map (·.flat)).sum) o.fracNum o.fracDen ≤ absI e.cum)) ∧
+    (afterCutoff o es).Sublist es :=
+  ⟨mem_afterCutoff o es e, afterCutoff_sublist o es⟩
+
+/-- text reports, step 2: what is shown is a prefix — of length min(nodecount, #survivors) when
+nodecount > 0, everything otherwise — of the survivors arranged by the active order; that
+arrangement is a permutation of the survivors, and it is sorted whenever the comparator is a strict
+total order (C08's theorem about graph.go's comparators). -/
+theorem topN_is_prefix_of_sorted (o : TrimOpts) (es : List Entry) :
+    trimText o es <+: sortBy (order o) (afterCutoff o es) ∧
+    (sortBy (order o) (afterCutoff o es)).Perm (afterCutoff o es) ∧
+    (0 < o.nodeCount → (trimText o es).length = min o.nodeCount (afterCutoff o es).length) ∧
+    (o.nodeCount = 0 → trimText o es = sortBy (order o) (afterCutoff o es)) ∧
+    (StrictTotal (order o) →
+      (sortBy (order o) (afterCutoff o es)).Pairwise (fun a b => order o b a = false)) := by
+  refine ⟨topN_prefix _ _, sortBy_perm _ _, ?_, ?_, fun h => sortBy_sorted _ h _⟩
+  · intro hn
+    unfold trimText
+    rw [topN_length _ _ hn, (sortBy_perm _ _).length_eq]
+  · intro hn
+    unfold trimText topN
+    simp [hn]
+
+-- non-vacuity: Σflat = 10, nodefraction 1/2 → cutoff 5; entry with cum 4 is removed; top 1 by flat
+example : let es : List Entry := [⟨0, [97], [97], 3, 10⟩, ⟨1, [98], [98], 7, 7⟩, ⟨2, [99], [99], 0, 4⟩]
+    (trimText ⟨1, 2, 1, false⟩ es).map (·.id) = [1] ∧ (trimText ⟨1, 2, 0, true⟩ es).map (·.id) = [0, 1] := by decide
 
 -- non-vacuity: chain 1→2→3 (value 7) and 1→3 (value 2), entry 2 removed: edge 1→3 gets 9 and is residual
 example : let ss : List (GSample Nat) := [{ frames := [1, 2, 3], w := 7, d := 0 }, { frames := [1, 3], w := 2, d := 0 }]
